@@ -23,6 +23,7 @@ except Exception:  # pragma: no cover
     _R = None
 
 SEED = int(os.environ.get("VERIF_SEED", "0") or 0)
+N_MULT = 1  # the thorough tier multiplies the number of random points
 
 
 class T:
@@ -176,6 +177,10 @@ def mk(op, *args):
                 return const(r)
             except Exception:  # noqa
                 pass
+    if op == "gt":  # canonical orientation of comparisons: a > b is stored as b < a
+        return mk("lt", args[1], args[0])
+    if op == "ge":
+        return mk("le", args[1], args[0])
     if op == "add":
         if cval(args[0]) == 0 and _num(cval(args[0])):
             return args[1]
@@ -522,12 +527,16 @@ class Verdict:
 
 def equivalent(a, b, samplers=None, n=24, tol=1e-7, extra_envs=(), seed_tag="", need=None):
     """Random interpretation: are the two terms equal as functions of their free symbols?"""
+    lattice_only = bool(extra_envs) and n <= len(extra_envs)  # the caller's points (e.g. integer lattice) are the domain
+    n = len(extra_envs) if lattice_only else n * N_MULT
     names = symbols(a, b)
     rng = np.random.default_rng([SEED, int(hashlib.md5(("eq" + seed_tag).encode()).hexdigest()[:8], 16)])
     good = 0
     envs = [dict(e) for e in extra_envs]
     tries = 0
     while good < n and tries < 6 * n + len(envs):
+        if lattice_only and not envs:
+            break
         env = envs.pop(0) if envs else sample_env(names, rng, samplers)
         tries += 1
         try:
